@@ -771,6 +771,7 @@ partial def stepCache (st : CacheSt) (tl : Tally) (act : String) (ans : String) 
             let tl := match it with
               | .new k _ _ _ _ =>
                 let R := policyAdd c.lfu est k (c.internalCost (match it with | .new _ _ cost _ _ => cost | _ => 0)) refills
+                let tl := if !R.added && (R.victims.getD []).length > 0 then tl.bump "padd.rejected_after_eviction" else tl
                 tl.bump (if R.added then (if R.victims.isSome then "padd.evicting" else "padd.room")
                   else if (c.lfu.costs.get k).isSome then "padd.already_charged"
                   else if R.victims.isNone then "padd.oversize" else "padd.rejected")
